@@ -51,6 +51,7 @@ func (ctx *Ctx) GenVC(fc *FuncContract) (res *FuncResult) {
 	fr := vc.newFrame(fn, fc, "", 0, nil)
 	entry := &State{reach: True, taint: False, base: "0", mbase: "0", heaps: map[Sort]Term{}, maps: map[string]Term{}, ghost: map[string]Term{}}
 	entry.alloc = vc.Fresh("alloc0", SInt)
+	entry.epochBound = entry.alloc
 	entry.assume(Ge(entry.alloc, IntLit(1)))
 	for _, p := range fn.Params {
 		srt, err := vc.tt.SortOf(p.Type())
@@ -75,6 +76,15 @@ func (ctx *Ctx) GenVC(fc *FuncContract) (res *FuncResult) {
 			return res
 		}
 		entry.assume(t)
+	}
+	for _, g := range ctx.globalFacts[fc.PkgPath] {
+		t, err := env.EvalBool(g.E)
+		if err != nil {
+			res.Err = fmt.Sprintf("global %s does not resolve: %v", g.Label, err)
+			return res
+		}
+		entry.assume(t)
+		vc.assume("package-level variables of " + fc.PkgPath + " hold their initial values: " + g.Src)
 	}
 	for _, w := range fc.Where {
 		t, err := env.EvalBool(w.E)
@@ -183,7 +193,13 @@ func (ctx *Ctx) frameObligation(vc *VC, fr *Frame, fc *FuncContract, exit *State
 		sl = append(sl, string(s))
 	}
 	sort.Strings(sl)
+	type fc1 struct {
+		what string
+		t    Term
+	}
+	var parts []fc1
 	var conj []Term
+	_ = conj
 	for _, ss := range sl {
 		s := Sort(ss)
 		h0 := vc.heap(fr.entry, s)
@@ -193,7 +209,7 @@ func (ctx *Ctx) frameObligation(vc *VC, fr *Frame, fc *FuncContract, exit *State
 		}
 		allowed := Or(per[s]...)
 		body := Implies(And(Lt(Rid(q), fr.entry.alloc), Not(allowed)), Eq(Select(h1, q), Select(h0, q)))
-		conj = append(conj, Term{fmt.Sprintf("(forall ((q!r Ref)) %s)", body.S), SBool})
+		parts = append(parts, fc1{"heap " + ss, Term{fmt.Sprintf("(forall ((q!r Ref)) %s)", body.S), SBool}})
 	}
 	if !fc.ModifiesMaps {
 		var mk []string
@@ -202,17 +218,17 @@ func (ctx *Ctx) frameObligation(vc *VC, fr *Frame, fc *FuncContract, exit *State
 		}
 		sort.Strings(mk)
 		for _, key := range mk {
-			parts := strings.SplitN(key, "|", 3)
+			kp := strings.SplitN(key, "|", 3)
 			var h0, h1 Term
 			if key == "len" {
 				h0, h1 = vc.mapHeap(fr.entry, "len", "", ""), vc.mapHeap(exit, "len", "", "")
 			} else {
-				h0, h1 = vc.mapHeap(fr.entry, parts[0], Sort(parts[1]), Sort(parts[2])), vc.mapHeap(exit, parts[0], Sort(parts[1]), Sort(parts[2]))
+				h0, h1 = vc.mapHeap(fr.entry, kp[0], Sort(kp[1]), Sort(kp[2])), vc.mapHeap(exit, kp[0], Sort(kp[1]), Sort(kp[2]))
 			}
 			if h0.S == h1.S {
 				continue
 			}
-			conj = append(conj, Term{fmt.Sprintf("(forall ((q!i Int)) (=> (< q!i %s) (= (select %s q!i) (select %s q!i))))", fr.entry.alloc.S, h1.S, h0.S), SBool})
+			parts = append(parts, fc1{"map heap " + key, Term{fmt.Sprintf("(forall ((q!i Int)) (=> (< q!i %s) (= (select %s q!i) (select %s q!i))))", fr.entry.alloc.S, h1.S, h0.S), SBool}})
 		}
 	}
 	// ghost variables not listed under assigns keep their value
@@ -232,14 +248,20 @@ func (ctx *Ctx) frameObligation(vc *VC, fr *Frame, fc *FuncContract, exit *State
 		if gv := ctx.ghostVars[k[3:]]; gv != nil {
 			g0, _, _ := vc.ghostVar(fr.entry, gv)
 			g1, _, _ := vc.ghostVar(exit, gv)
-			conj = append(conj, Eq(g1, g0))
+			parts = append(parts, fc1{"ghost " + k[3:], Eq(g1, g0)})
 		}
 	}
-	if len(conj) == 0 {
+	if len(parts) == 0 {
 		return
 	}
-	vc.addObl(&Obligation{Name: "frame", Kind: "frame", Reach: exit.reach, Cond: And(conj...), Taint: exit.taint,
-		Pos: ctx.prog.Fset.Position(fr.fn.Pos()), Descr: "only locations in the modifies clause change"})
+	var all []Term
+	var whats []string
+	for _, p := range parts {
+		all = append(all, p.t)
+		whats = append(whats, p.what)
+	}
+	vc.addObl(&Obligation{Name: "frame", Kind: "frame", Reach: exit.reach, Cond: And(all...), Taint: exit.taint,
+		Pos: ctx.prog.Fset.Position(fr.fn.Pos()), Descr: "only locations in the modifies/assigns clauses change (" + strings.Join(whats, "; ") + ")"})
 }
 
 func (ctx *Ctx) genLemma(fc *FuncContract, res *FuncResult) {
